@@ -152,6 +152,86 @@ fn int_window_after_overrun(ctx: &Ctx, m128: bool) {
     );
 }
 
+/// (a'') the INT line is a level held for the whole 32 T, not a request dropped by the acknowledge:
+/// an IM 2 (and IM 1 on the 48K, IM 0) handler that re-enables interrupts at once is re-entered as
+/// long as the next interrupt-enabled boundary still falls inside the pulse. Handlers `EI; NOP*k;
+/// RET`, k = 0..5, first acceptance placed on every T of 0..34, free running afterwards for 16
+/// instructions in lock step with RefMachine (T, PC, SP, IFF1 after every instruction).
+fn int_level_reentry(ctx: &Ctx, m128: bool) {
+    let sp = spec(m128);
+    let mut jobs: Vec<(u64, usize, u8)> = Vec::new();
+    for t in 0..36u64 {
+        for k in 0..6usize {
+            for im in [0u8, 2] {
+                jobs.push((t, k, im));
+            }
+        }
+    }
+    par_for_with(
+        jobs.len(),
+        8,
+        || rig::emu_stepping(&opts(m128)),
+        |e, j| {
+            let (t, k, im) = jobs[j];
+            // main program: NOP sled
+            rig::poke(e, 0x8000, &[0x00; 64]);
+            // IM 2 handler: EI; NOP*k; RET   (IM 0 with FF on the bus = RST 38: handler in ROM, so
+            // IM 0 is only used as a second acknowledge path whose ROM handler is long: one acceptance)
+            let mut h: Vec<u8> = vec![0xFB];
+            h.extend(std::iter::repeat(0x00).take(k));
+            h.push(0xC9);
+            rig::poke(e, HANDLER, &h);
+            rig::poke(e, 0xFEFF, &[HANDLER as u8, (HANDLER >> 8) as u8]);
+            if im == 0 && m128 {
+                // the 128K ROM's RST 38 handler pages memory, which RefMachine does not model
+                return;
+            }
+            let mut r = RegsView::default();
+            r.pc = 0x8000;
+            r.sp = 0xBFF0;
+            r.i = 0xFE;
+            r.im = im;
+            r.iff1 = true;
+            r.iff2 = true;
+            e.verif_set_frame_clocks(t as usize);
+            rig::set_regs(e.verif_cpu(), &r);
+            let img: Vec<u8> = (0..=0xFFFFu16).map(|a| e.peek(a)).collect();
+            let dummy = |_a: u16| 0u8;
+            let io = |_p: u16, _t: u64| 0xFFu8;
+            let t0 = rig::abs_t(e, m128);
+            let mut bus = RefMachine::new(sp, Contended::new(m128, 0), t0, &dummy, &io);
+            bus.mem64 = Some(img);
+            let mut rc = ref_from(&r);
+            let mut accepts = 0u64;
+            for step in 0..16 {
+                rig::step(e);
+                loop {
+                    match rc.step(&mut bus) {
+                        StepKind::Instruction => break,
+                        StepKind::IntAccepted => accepts += 1,
+                        _ => {}
+                    }
+                }
+                let v = rig::regs_view(e.verif_cpu());
+                let it = rig::abs_t(e, m128);
+                if it != bus.t || v.pc != rc.pc || v.sp != rc.sp || v.iff1 != rc.iff1 {
+                    ctx.violation(
+                        &format!("C05:int-level-reentry:{}:im{}", if m128 { "128k" } else { "48k" }, im),
+                        &format!(
+                            "{} machine, IM {}: interrupts enabled at T={} of the frame with a handler `EI; {} NOPs; RET`: after {} instructions implementation T={} pc={:04x} sp={:04x} iff1={}, reference T={} pc={:04x} sp={:04x} iff1={} (INT stays asserted for all of T=0..31, so a handler that re-enables interrupts inside the pulse is re-entered)",
+                            if m128 { "128K" } else { "48K" }, im, t, k, step + 1, it % sp.frame, v.pc, v.sp, v.iff1, bus.t % sp.frame, rc.pc, rc.sp, rc.iff1
+                        ),
+                        json!({"kind":"int-level-reentry","m128":m128,"t":t,"nops":k,"im":im}),
+                    );
+                    break;
+                }
+            }
+            ctx.add_eval(1);
+            ctx.outcome(0x5000 + accepts);
+        },
+    );
+}
+
 // ---------------------------------------------------------------- (b) programs
 
 #[derive(Clone, Debug)]
@@ -425,6 +505,8 @@ pub fn run(tier: Tier, seed: u64, replay: Option<String>) -> i32 {
             }
         } else if c["kind"] == "int-window-overrun" {
             int_window_after_overrun(&ctx, c["m128"].as_bool().unwrap_or(false));
+        } else if c["kind"] == "int-level-reentry" {
+            int_level_reentry(&ctx, c["m128"].as_bool().unwrap_or(false));
         } else if c["kind"] == "int-window" {
             int_window(&ctx, c["m128"].as_bool().unwrap_or(false));
         } else {
@@ -442,6 +524,8 @@ pub fn run(tier: Tier, seed: u64, replay: Option<String>) -> i32 {
     int_window(&ctx, true);
     int_window_after_overrun(&ctx, false);
     int_window_after_overrun(&ctx, true);
+    int_level_reentry(&ctx, false);
+    int_level_reentry(&ctx, true);
     let progs = programs(quick);
     let frames = if quick { 6 } else { 40 };
     let jobs: Vec<(bool, usize)> = (0..progs.len()).flat_map(|i| [(false, i), (true, i)]).collect();
@@ -465,7 +549,7 @@ pub fn run(tier: Tier, seed: u64, replay: Option<String>) -> i32 {
     ctx.note("frames_per_program", json!(frames));
     ctx.sample(json!({"program": format!("{:?}", progs[progs.len() / 2])}));
     ctx.finish(
-        "(a) every T of the frame x both machines x running/halted: an enabled interrupt is accepted at that boundary iff T < 32, pushed address checked; (a') the same after a frame end reached by real execution: 4/13/23-T instructions straddling the frame end with every overrun 0..22, followed by fillers that put the first interrupt-enabled boundary on every T up to about 60, lock step with RefMachine; (b) all loop bodies of <=2 (quick) / <=3 (thorough) elements over {HALT, LDIR, 23-T indexed op, EI, DI, OUT (FE), NOP sleds of 11 lengths}, code and data in contended or uncontended RAM, IM 2 handler of ~40/100/3400 T that counts interrupts, run for whole frames on the real Emulator (clock never placed) and on RefZ80+RefULA, comparing (absolute T, PC, SP) after every instruction, interrupt counter at the end; (c) emulate_frames(FrameCount(n)) emulates exactly n frames, n=1..4. states = instruction boundaries compared",
+        "(a) every T of the frame x both machines x running/halted: an enabled interrupt is accepted at that boundary iff T < 32, pushed address checked; (a') the same after a frame end reached by real execution: 4/13/23-T instructions straddling the frame end with every overrun 0..22, followed by fillers that put the first interrupt-enabled boundary on every T up to about 60, lock step with RefMachine; (a'') the pulse is a level, not a request dropped by the acknowledge: handlers `EI; k NOPs; RET` (k=0..5) in IM 2 (and IM 0 on the 48K) with interrupts enabled at every T of 0..35, free running for 16 instructions in lock step (a handler that re-enables interrupts inside the pulse is re-entered); (b) all loop bodies of <=2 (quick) / <=3 (thorough) elements over {HALT, LDIR, 23-T indexed op, EI, DI, OUT (FE), NOP sleds of 11 lengths}, code and data in contended or uncontended RAM, IM 2 handler of ~40/100/3400 T that counts interrupts, run for whole frames on the real Emulator (clock never placed) and on RefZ80+RefULA, comparing (absolute T, PC, SP) after every instruction, interrupt counter at the end; (c) emulate_frames(FrameCount(n)) emulates exactly n frames, n=1..4. states = instruction boundaries compared",
         true,
         &["absolute T of the implementation = total_frames (hook counter incremented in new_frame) x frame length + frame clock", "RefULA from the property text, RefZ80 validated"],
     )
